@@ -112,6 +112,7 @@ def real_shard(seed, n, tier="quick"):
     exitspec = st.one_of(
         st.fixed_dictionaries({"how": st.sampled_from(["os_exit", "sys_exit"]), "n": st.integers(0, 255)}),
         st.fixed_dictionaries({"how": st.just("signal"), "sig": st.sampled_from(SIGS)}),
+        st.fixed_dictionaries({"how": st.just("signal"), "sig": st.sampled_from([11, 6, 3, 8]), "core": st.just(True)}),
         st.fixed_dictionaries({"how": st.sampled_from(["return", "raise"])}))
     inits = st.fixed_dictionaries({
         "executor": st.sampled_from(["plain", "reusable"]), "workers": st.integers(1, 2), "timeout": st.sampled_from([None, 0.15, 20]),
@@ -125,7 +126,7 @@ def real_shard(seed, n, tier="quick"):
            st.lists(exitspec, max_size=3), st.one_of(st.none(), inits), st.booleans())
     def t(fds, env, exits, ini, main):
         prog = {"fds": fds, "env": env, "exits": exits, "init": ini, "env_change": bool(env) or len(fds) % 2 == 0,
-                "main_script": {"workers": 2, "n": 6} if main else None}
+                "main_script": {"workers": 2, "n": 6, "as_module": len(fds) % 2 == 1} if main else None}
         res = runner.run("drv_c18.py", prog, base, timeout=400)
         if res["timed_out"]:
             raise HarnessError(f"C18 real driver watchdog: prog={prog} err={res['err'][-600:]}")
